@@ -353,6 +353,15 @@ func (e *mvEnv) judge(label string, m *nom.Momentum, blocks []*nom.AccountBlock)
 	return verdict
 }
 
+// add-momentum <frontier hash:height before> <m.prevHash> <m.height> <m.hash> | <frontier hash:height after>
+func (e *mvEnv) emitAdd(before *nom.Momentum, m *nom.Momentum) {
+	after := e.frontier()
+	e.c.Emit("add-momentum %s:%d %s %d %s | %s:%d", hex.EncodeToString(before.Hash.Bytes()), before.Height,
+		hex.EncodeToString(m.PreviousHash.Bytes()), m.Height, hex.EncodeToString(m.Hash.Bytes()),
+		hex.EncodeToString(after.Hash.Bytes()), after.Height)
+	e.c.Hit("add-momentum")
+}
+
 func flipBit(h types.Hash, i int) types.Hash { h[i%32] ^= 1 << uint(i%8); return h }
 
 func (e *mvEnv) rehashSign(m *nom.Momentum, key *wallet.KeyPair) {
@@ -546,6 +555,7 @@ func (e *mvEnv) round(gapSlots int64) {
 	if err != nil {
 		panic(fmt.Sprintf("cannot insert the valid momentum: %v", err))
 	}
+	e.emitAdd(prev, v)
 	if f := e.frontier(); f.Hash != v.Hash {
 		c.Fail("mverify: the valid momentum %v was inserted without error but the frontier is %v", v.Hash, f.Hash)
 	}
@@ -710,6 +720,7 @@ func init() {
 			err = ch.AddMomentumTransaction(insert, tx)
 			insert.Unlock()
 			after := e.frontier()
+			e.emitAdd(f, tx.Momentum)
 			if err == nil {
 				c.Hit("note-fork-sibling-insert-returned-nil")
 			} else {
